@@ -146,6 +146,8 @@ PROPS = {
         theorems=None, impl_search=pqv_bign.borrow_search, drop=["t", "hq"],
         gens=tiers(
             [rnd("both", "core", 3000, 60, boost="peekmut:4,getmut:4,get:3"),
+             # items whose Hash is coarser than their Eq: the element addressed is decided by Eq
+             rnd("both", "core", 1000, 60, hashmode=1, boost="peekmut:2,getmut:5,get:3,chg:3,chgby:3"),
              rnd("both", "iter", 1500, 50, exclude=NOT_ITERMUT),
              rnd("both", "bulk", 1000, 50, exclude="serde,deser,eq,extend,fromiter")],
             [rnd("both", "all", 30000, 80, exclude="extend,fromiter")]),
@@ -153,8 +155,10 @@ PROPS = {
     "C13": dict(
         theorems=None, drop=["t", "hq"],
         gens=tiers(
-            [rnd("both", "iter", 5000, 40, exclude="itermut")],
-            [rnd("both", "iter", 40000, 60, exclude="itermut")]),
+            [rnd("both", "iter", 5000, 40, exclude="itermut"),
+             # the contracts hold of whatever state a caught panic leaves behind, too
+             rnd("both", "fuse", 1500, 50, exclude="itermut", boost="iter:3,intoiter:3,drain:3,sortediter:3")],
+            [rnd("both", "iter", 40000, 60, exclude="itermut"), rnd("both", "fuse", 10000, 60, exclude="itermut")]),
     ),
     "C14": dict(
         theorems=None, drop=["t", "hq"],
@@ -180,7 +184,7 @@ PROPS = {
             [rnd("both", "iter", 30000, 80, exclude="itermut", boost="drain:6,clear:20")]),
     ),
     "C17": dict(
-        theorems=None, drop=["t"],
+        theorems=None, impl_search=pqv_bign.zst_cap_search, drop=["t"],
         gens=tiers(
             [rnd("both", "cap", 4000, 60),
              # capacity operations interleaved with everything else (append, extend, conversions, ...)
